@@ -392,8 +392,12 @@ func (self *Runtime) InvokePipeline(src string, srcPath string, psid string,
 		pipestancePath, mroPaths,
 		mroVersion, envs, false, readOnly, context.Background())
 	if err != nil {
-		// If instantiation failed, delete the pipestance folder.
-		os.RemoveAll(pipestancePath)
+		// If instantiation failed, delete the pipestance folder, unless it
+		// failed because another instance holds the pipestance: then the
+		// folder is that instance's, not ours.
+		if _, locked := err.(*PipestanceLockedError); !locked {
+			os.RemoveAll(pipestancePath)
+		}
 		return nil, err
 	}
 
